@@ -56,6 +56,30 @@ func C09(c *core.Ctx) {
 	if c.HasViolation() || c.Expired() {
 		return
 	}
+	// the will must survive being overwritten in the incoming ring: 24 KiB of the
+	// client's own traffic between its CONNECT and its end
+	if c.NShards <= 1 || c.Shard == 0 {
+		for _, end := range []Action{{Kind: "cut", Client: "X"}, {Kind: "disconnect", Client: "X"}, {Kind: "raw", Client: "X", Raw: []byte{0xF0, 0x00}, RawDesc: "reserved packet type 15"}} {
+			for _, k := range []int{1, 2, 5} {
+				hist := append([]Action{ops[k]}, flood("X")...)
+				hist = append(hist, end, ops[14], ops[15])
+				fs := &HistSpec{Name: "will-flooded", Comps: spec.Comps, Prefix: spec.Prefix}
+				r := fs.RunHistory(hist, false)
+				c.Rep.Evaluations++
+				c.Rep.Executions++
+				c.Rep.States++
+				c.Rep.Nontrivial++
+				c.Rep.Transitions += int64(r.Steps)
+				if r.Violation != "" {
+					rr := fs.RunHistory(hist, true)
+					if c.Violate("C09 will-flooded :: "+violClass(r.Violation), core.Replay{Scenario: "will-flooded: " + ops[k].String() + ", 24 KiB of its own traffic, " + end.String(), Message: r.Violation, Log: tailS(rr.Trace, 30), Crash: rr.Crash}) {
+						return
+					}
+				}
+			}
+		}
+		c.Rep.Scenarios++
+	}
 	c09hostile(c)
 	if c.HasViolation() || c.Expired() {
 		return
